@@ -77,6 +77,16 @@ func (d *asaDev) lineMatches(body string, p pkt) (permit, hit bool) {
 	if !ok {
 		return permit, false
 	}
+	if len(rest) >= 2 && rest[0] == "object-group" {
+		sg, ok := d.SGroups[rest[1]]
+		if !ok {
+			return permit, false
+		}
+		if !(sg.Kind == p.proto || sg.Kind == "tcp-udp" && (p.proto == "tcp" || p.proto == "udp")) {
+			return permit, false
+		}
+		return permit, contains(sg.Ports, "eq "+strconv.Itoa(p.port))
+	}
 	if len(rest) >= 2 && rest[0] == "eq" {
 		n, _ := strconv.Atoi(rest[1])
 		if n != p.port {
